@@ -106,6 +106,30 @@ FillRefused(i, k, how) ==
     /\ how \in {"fill_short", "fill_long", "fill_n_width", "fill_n_weights"}
     /\ UNCHANGED <<pool, ghost>>
 
+(* Members of a HistogramCollection over ONE adaptive binning (1-D): c.create(name, data), member.fill, member.fill_n.   *)
+(* The binning is shared, so whenever one member makes it grow every member spans the union of all ranges (contents stay *)
+(* attached to their intervals, the new bins of the other members are empty).                                           *)
+LiveIds(p) == {i \in Ids : p[i] # Null}
+UnionAll(p) == FoldSet(LAMBDA i, acc : UnionAxis(acc, p[i].axes[1]), NoAxis(1), LiveIds(p))
+Shared(p) == [i \in Ids |-> IF p[i] = Null THEN Null ELSE [p[i] EXCEPT !.axes = <<UnionAll(p)>>]]
+AllOneAxis == \A i \in Ids : Has(i) => Len(pool[i].axes) = 1
+
+CollCreate(k, batch) ==
+    /\ Live /\ On("CollCreate") /\ Free(k) /\ \A j \in Ids : j < k => Has(j)
+    /\ AllOneAxis /\ Len(batch) > 0 /\ BatchDim(batch, 1)
+    /\ pool' = Shared([pool EXCEPT ![k] = DepositAll(Empty(1), batch)])
+    /\ ghost' = [ghost EXCEPT ![k] = GAddAll({}, batch)]
+
+CollFill(i, cell, cls, w) ==
+    /\ Live /\ On("CollFill") /\ Has(i) /\ AllOneAxis /\ Len(cell) = 1
+    /\ pool' = Shared([pool EXCEPT ![i] = Deposit(pool[i], cell, w)])
+    /\ ghost' = [ghost EXCEPT ![i] = GAdd2(ghost[i], cell, w)]
+
+CollFillN(i, batch) ==
+    /\ Live /\ On("CollFillN") /\ Has(i) /\ AllOneAxis /\ BatchDim(batch, 1)
+    /\ pool' = Shared([pool EXCEPT ![i] = DepositAll(pool[i], batch)])
+    /\ ghost' = [ghost EXCEPT ![i] = GAddAll2(ghost[i], batch)]
+
 (* k = i + j: bins are extended to the union of both ranges on the common grid, nothing is lost *)
 PlusA(a, b) ==
     [axes |-> [x \in 1..Len(a.axes) |-> UnionAxis(a.axes[x], b.axes[x])],
@@ -149,6 +173,9 @@ Next ==
     \/ \E i \in Ids, cell \in [1..1 -> Indices] \cup [1..2 -> Indices], cls \in Classes, w \in Weights : Fill(i, cell, cls, w)
     \/ \E i \in Ids, b \in Batches : FillN(i, b)
     \/ \E i \in Ids, k \in Indices, how \in {"fill_short", "fill_long", "fill_n_width", "fill_n_weights"} : FillRefused(i, k, how)
+    \/ \E k \in Ids, b \in Prefills : CollCreate(k, b)
+    \/ \E i \in Ids, cell \in [1..1 -> Indices], cls \in Classes, w \in Weights : CollFill(i, cell, cls, w)
+    \/ \E i \in Ids, b \in Batches : CollFillN(i, b)
     \/ \E i, j, k \in Ids : Add(i, j, k)
     \/ \E i, j \in Ids : IAdd(i, j)
     \/ \E i, k \in Ids : Copy(i, k)
